@@ -224,6 +224,15 @@ class World(object):
                 nxt = self.heap[0][0] if self.heap else None
                 dl = self._min_deadline()
                 if nxt is None and dl is None:
+                    if self.ordinal:
+                        # a peer action was placed before a later call of this
+                        # operation, which the blocked caller will never make:
+                        # it happens now, while the caller is blocked
+                        key = min(self.ordinal)
+                        for fn in self.ordinal.pop(key):
+                            self.ordinal_fired += 1
+                            fn()
+                        continue
                     raise SimHang('%s: nothing can wake the caller' % what)
                 if nxt is None or (dl is not None and dl < nxt):
                     self.now = max(self.now, dl)
